@@ -71,13 +71,147 @@ def purge_batchie():
 
 
 def set_entropy(seed: int):
-    """Process-start entropy of a simulated launch: global numpy and stdlib state and the
-    OS entropy pool."""
+    """Process-start entropy of a simulated launch: global numpy and stdlib state, the
+    OS entropy pool and the thread schedule."""
     np.random.seed(h64("np-global", seed) % (2**32))
     random.seed(h64("py-global", seed))
     _OS_ENTROPY["seed"], _OS_ENTROPY["n"] = seed, 0
     random._urandom = _fake_urandom
     os.urandom = _fake_urandom
+    install_sim_threads()
+    SIM_THREADS["rng"] = random.Random(h64("thread-schedule", seed))
+
+
+# --------------------------------------------------------------------------------------
+# thread seam: who runs next is the simulator's decision
+#
+# The shipped code starts no threads.  A change that does (overlapping sub-groups on a pool "because numpy releases
+# the GIL") makes the result depend on which task reaches shared state first.  The simulator owns that choice: the
+# pool classes are replaced by a cooperative pool that runs the submitted tasks ONE AT A TIME, each to completion, in
+# an order drawn from the run's schedule stream.  One seed is one exactly repeatable interleaving (at task
+# granularity), and the two members of a twin run get different ones.
+
+SIM_THREADS = dict(rng=random.Random(0), installed=False, tasks=0)
+
+
+class _SimFuture:
+    def __init__(self, pool, fn, args, kw):
+        self.pool, self.fn, self.args, self.kw = pool, fn, args, kw
+        self.done_, self.value, self.exc = False, None, None
+
+    def _run(self):
+        if self.done_:
+            return
+        SIM_THREADS["tasks"] += 1
+        try:
+            self.value = self.fn(*self.args, **self.kw)
+        except BaseException as e:  # noqa: BLE001 - delivered to whoever asks for the result, like a real future
+            self.exc = e
+        self.done_ = True
+
+    def result(self, timeout=None):
+        self.pool._drain()
+        if self.exc is not None:
+            raise self.exc
+        return self.value
+
+    def exception(self, timeout=None):
+        self.pool._drain()
+        return self.exc
+
+    def done(self):
+        return self.done_
+
+    def cancel(self):
+        return False
+
+    def add_done_callback(self, fn):
+        self.pool._drain()
+        fn(self)
+
+
+class SimThreadPool:
+    def __init__(self, max_workers=None, *a, **kw):
+        self._pending = []
+
+    def submit(self, fn, *args, **kw):
+        f = _SimFuture(self, fn, args, kw)
+        self._pending.append(f)
+        return f
+
+    def _drain(self):
+        while self._pending:
+            i = SIM_THREADS["rng"].randrange(len(self._pending))
+            self._pending.pop(i)._run()
+
+    def map(self, fn, *iterables, timeout=None, chunksize=1):
+        futs = [self.submit(fn, *args) for args in zip(*iterables)]
+
+        def gen():
+            for f in futs:
+                yield f.result()
+        return gen()
+
+    def shutdown(self, wait=True, cancel_futures=False):
+        self._drain()
+
+    def __enter__(self):
+        return self
+
+    def __exit__(self, *exc):
+        self._drain()
+        return False
+
+    # multiprocessing.pool.ThreadPool flavour
+    def starmap(self, fn, iterable, chunksize=None):
+        futs = [self.submit(fn, *args) for args in iterable]
+        return [f.result() for f in futs]
+
+    def imap(self, fn, iterable, chunksize=1):
+        return self.map(fn, iterable)
+
+    imap_unordered = imap
+
+    def apply_async(self, fn, args=(), kwds=None):
+        f = self.submit(fn, *args, **(kwds or {}))
+        f.get = f.result
+        return f
+
+    def close(self):
+        pass
+
+    def join(self):
+        self._drain()
+
+    def terminate(self):
+        self._pending = []
+
+
+class _SimThreadPoolMp(SimThreadPool):
+    def __init__(self, processes=None, *a, **kw):
+        super().__init__()
+
+    def map(self, fn, iterable, chunksize=None):
+        return list(SimThreadPool.map(self, fn, iterable))
+
+
+def install_sim_threads():
+    if SIM_THREADS["installed"]:
+        return
+    import concurrent.futures as _cf
+    import concurrent.futures.thread as _cft
+    import multiprocessing.pool as _mpp
+
+    _cf.ThreadPoolExecutor = SimThreadPool
+    _cft.ThreadPoolExecutor = SimThreadPool
+    _mpp.ThreadPool = _SimThreadPoolMp
+    try:
+        import multiprocessing.dummy as _mpd
+
+        _mpd.Pool = lambda processes=None, *a, **kw: _SimThreadPoolMp(processes)
+    except Exception:
+        pass
+    SIM_THREADS["installed"] = True
 
 
 def global_state_digest():
